@@ -102,6 +102,10 @@ ROUTINES = {
     "fb_exp_slide": dict(fam="fb", bind="c20_fb_exp", rid=1, A=r"fb_exp_slide", dom="exp", control=True),
 }
 
+# routines whose source applies the sign of the scalar with a masked copy (ep_mul_reg_imp, ep2_mul_reg_imp / _gls,
+# ed_mul_reg_imp, gt_exp_reg_*): they get batches with mixed signs. The ladders negate under a plain `if (sign)`.
+SIGN_MASKED = ("ep_mul_lwreg", "ep2_mul_lwreg", "ed_mul_lwreg", "g1_mul_sec", "g2_mul_sec", "gt_exp_sec")
+
 EP_CURVES = {256: ["NIST_P256", "BSI_P256", "SECG_K256", "SM2_P256", "BN_P256", "SM9_P256"],
              255: ["CURVE_25519", "TWEEDLEDUM"], 381: ["B12_P381"]}
 EB_CURVES = {283: ["NIST_B283", "NIST_K283"]}
@@ -465,7 +469,12 @@ def mk_curve_strategy(routines_fn):
                 hi = min(hi, o["n"] - 2)
             kinds, ks = draw(batch(l, hi, specials))
             pm = draw(st.one_of(st.sampled_from([1, 2, 3, 5]), ints.uniform(1, (1 << 63) - 1)))
-            return dict(routine=routine, fam=fam, curve=cv, n=o["n"], l=l, full=nb, pm=pm, kinds=kinds, ks=ks)
+            case = dict(routine=routine, fam=fam, curve=cv, n=o["n"], l=l, full=nb, pm=pm, kinds=kinds, ks=ks)
+            if routine in SIGN_MASKED and draw(st.sampled_from([0, 0, 1])):
+                # the regular-recoding routines apply the sign of the scalar by a masked copy: the sign is part of the
+                # secret value, so a batch of one magnitude length with mixed signs must give one trace as well
+                case["signs"] = draw(st.lists(st.sampled_from([0, 1]), min_size=len(ks), max_size=len(ks)))
+            return case
         return s()
     return strat
 
@@ -489,9 +498,13 @@ def run_curve(env, cfg, case):
     o = C.order(env, case["fam"], case["curve"])
     if o is None or any(not (1 <= k < o["n"]) for k in ks):
         raise Unsupported()
-    tab, traces = run_batch(env, cfg, routine, curve_args(C, case), ks)
+    signs = case.get("signs")
+    sks = [(-k if sg else k) for k, sg in zip(ks, signs)] if signs else ks
+    tab, traces = run_batch(env, cfg, routine, curve_args(C, case), sks)
     what = "%s@%s" % (routine, case["curve"])
     nt, lb = batch_labels(case, ks, routine, case["curve"])
+    if signs and len(set(signs)) == 2:
+        lb.append("batch:mixed-signs")
     if any(tr.mismatch for tr in traces):
         lb.append("note:result-differs-from-basic-method:%s" % what)
     lb += compare_batch(env, cfg, what, tab, traces, ks)
